@@ -21,7 +21,7 @@ def gen_case(rng, plausible=True, malformed=False):
         def stack_cmd():
             k = rng.random()
             t = rng.choice(others)
-            a = rng.choice([0, 0, 7])
+            a = rng.choice([0, 0, 7, 4])
             if k < 0.35:
                 return [0, t, a]
             if k < 0.65:
